@@ -632,3 +632,269 @@ Proof.
     apply step_leader_LF in H; [|assumption..]. destruct H as [A B].
     split; [exact A|]. intros X _ _. apply B, X.
 Qed.
+
+(* ------------------------------------------------------------------ *)
+(* Part 4: the follower's step *)
+
+(* the shape of whatever [send] queues *)
+Lemma send_shape r m0 r' : send r m0 = Ok r' ->
+  exists m', r' = r <| r_msgs := r_msgs r ++ [m'] |> /\
+    m_type m' = m_type m0 /\ m_to m' = m_to m0 /\
+    m_from m' = (if m_from m0 =? INVALID_ID then r_id r else m_from m0) /\
+    (if is_vote_type (m_type m0) then m_term m' = m_term m0 /\ m_term m0 <> 0
+     else m_term m0 = 0 /\ (m_term m' = r_term r \/ m_term m' = 0)).
+Proof.
+  unfold send. intros H. ib H m1 H1. okinv H. eexists. split; [reflexivity|].
+  set (ma := if m_from m0 =? INVALID_ID then m0 <| m_from := r_id r |> else m0) in *.
+  assert (Ha : m_type ma = m_type m0 /\ m_to ma = m_to m0 /\ m_term ma = m_term m0 /\
+               m_from ma = (if m_from m0 =? INVALID_ID then r_id r else m_from m0)).
+  { unfold ma. destruct (m_from m0 =? INVALID_ID); repeat split; reflexivity. }
+  destruct Ha as (A1 & A2 & A3 & A4). rewrite A1, A3 in H1.
+  assert (Hm1 : m_type m1 = m_type m0 /\ m_to m1 = m_to m0 /\ m_from m1 = m_from ma /\
+     (if is_vote_type (m_type m0) then m_term m1 = m_term m0 /\ m_term m0 <> 0
+      else m_term m0 = 0 /\ (m_term m1 = r_term r \/ m_term m1 = 0))).
+  { destruct (is_vote_type (m_type m0)).
+    - destruct (m_term m0 =? 0) eqn:Ez; [discriminate|]. okinv H1. apply N.eqb_neq in Ez. auto 6.
+    - destruct (m_term m0 =? 0) eqn:Ez; cbn [negb] in H1; [|discriminate]. apply N.eqb_eq in Ez.
+      destruct (negb (m_type m0 =? MsgPropose) && negb (m_type m0 =? MsgReadIndex)); okinv H1; cbn;
+        repeat split; auto; try lia. }
+  destruct Hm1 as (B1 & B2 & B3 & B4). rewrite <- A4, <- B3.
+  destruct ((m_type m1 =? MsgRequestVote) || (m_type m1 =? MsgRequestPreVote));
+    [destruct (0 <? r_priority r)%Z|]; cbn; repeat split; assumption.
+Qed.
+
+(* the leader's id *)
+Variable l : N.
+
+Definition ftype_ok (ty : N) : Prop :=
+  ty <> MsgCheckQuorum /\ ty <> MsgTransferLeader /\ ty <> MsgRequestVote /\ ty <> MsgRequestPreVote.
+
+(* a queued message of a follower of term [t]: what goes to the leader is fit for it *)
+Definition QF (t : N) (x : msg) : Prop := m_to x = l -> m_term x <= t /\ ftype_ok (m_type x).
+
+Definition qpresF (r r' : raft) : Prop :=
+  Forall (QF (r_term r)) (r_msgs r) -> Forall (QF (r_term r)) (r_msgs r').
+
+(* term, vote, role, leader, configuration and the election timer state *)
+Definition tkeeps (r r' : raft) : Prop :=
+  keeps r r' /\ r_randomized_election_timeout r' = r_randomized_election_timeout r /\
+  r_election_elapsed r' = r_election_elapsed r.
+
+Lemma tkeeps_refl r : tkeeps r r. Proof. repeat split. Qed.
+Lemma tkeeps_trans a b c : tkeeps a b -> tkeeps b c -> tkeeps a c.
+Proof. intros (A1 & A2 & A3) (B1 & B2 & B3). split; [eapply keeps_trans; eassumption|split; congruence]. Qed.
+Lemma only_msgs_log_tkeeps r r' : only_msgs_log r r' -> tkeeps r r'.
+Proof. unfold only_msgs_log. intros H. rewrite H. repeat split. Qed.
+Lemma msgs_only_tkeeps r r' : msgs_only r r' -> tkeeps r r'.
+Proof. unfold msgs_only. intros H. rewrite H. repeat split. Qed.
+
+Lemma send_QF r m0 r' :
+  send r m0 = Ok r' -> ftype_ok (m_type m0) ->
+  (is_vote_type (m_type m0) = true -> m_to m0 <> l \/ m_term m0 <= r_term r) ->
+  qpresF r r'.
+Proof.
+  intros H Ht Hv. apply send_shape in H. destruct H as (m' & -> & A1 & A2 & _ & A4).
+  intros F. cbn. apply Forall_app. split; [exact F|]. constructor; [|constructor].
+  intros Hto. rewrite A1. split; [|exact Ht].
+  destruct (is_vote_type (m_type m0)).
+  - destruct A4 as [E _]. rewrite E. destruct (Hv eq_refl) as [C|C]; [congruence|exact C].
+  - destruct A4 as [_ [E|E]]; lia.
+Qed.
+
+Lemma qpresF_trans a b c : keeps a b -> qpresF a b -> qpresF b c -> qpresF a c.
+Proof.
+  intros K Q1 Q2. apply keeps_fields in K. destruct K as (T & _). unfold qpresF in *.
+  rewrite T in Q2. intros F. apply Q2, Q1, F.
+Qed.
+
+Lemma qpresF_same r r' : r_msgs r' = r_msgs r -> qpresF r r'.
+Proof. unfold qpresF. intros ->. auto. Qed.
+
+Lemma ftype_AppendResponse : ftype_ok MsgAppendResponse.
+Proof. repeat split; discriminate. Qed.
+Lemma ftype_HeartbeatResponse : ftype_ok MsgHeartbeatResponse.
+Proof. repeat split; discriminate. Qed.
+
+Lemma send_request_snapshot_QF r r' : send_request_snapshot r = Ok r' -> qpresF r r'.
+Proof.
+  unfold send_request_snapshot. intros H. ib H t Ht. destruct t; [|discriminate].
+  eapply send_QF; [exact H|apply ftype_AppendResponse|discriminate].
+Qed.
+
+Lemma handle_heartbeat_QF r m r' : handle_heartbeat r m = Ok r' -> qpresF r r'.
+Proof.
+  unfold handle_heartbeat. intros H. ib H l' Hl.
+  assert (Q : qpresF (r <| r_log := l' |>) r').
+  { dtop H; [apply send_request_snapshot_QF; exact H|].
+    eapply send_QF; [exact H|apply ftype_HeartbeatResponse|discriminate]. }
+  exact Q.
+Qed.
+
+Lemma handle_append_entries_QF r m r' : handle_append_entries r m = Ok r' -> qpresF r r'.
+Proof.
+  unfold handle_append_entries. intros H.
+  dtop H; [apply send_request_snapshot_QF; exact H|].
+  dtop H; [eapply send_QF; [exact H|apply ftype_AppendResponse|discriminate]|].
+  ib H y Hy. destruct y as [l' res].
+  assert (Q : qpresF (r <| r_log := l' |>) r').
+  { destruct res as [[a last_idx]|].
+    - eapply send_QF; [exact H|apply ftype_AppendResponse|discriminate].
+    - ib H z Hz. destruct z as [hi [ht|]]; [|discriminate].
+      eapply send_QF; [exact H|apply ftype_AppendResponse|discriminate]. }
+  exact Q.
+Qed.
+
+(* restoring a snapshot on a follower: nothing is sent, no timer is touched *)
+Lemma restore_follower r s r' b :
+  r_state r = Follower -> restore r s = Ok (r', b) -> tkeeps r r' /\ r_msgs r' = r_msgs r.
+Proof.
+  intros Hf. unfold restore. intros H.
+  dtop H; [okinv H; split; [apply tkeeps_refl|reflexivity]|].
+  rewrite Hf in H. cbn [role_eqb negb] in H.
+  dtop H; [okinv H; split; [apply tkeeps_refl|reflexivity]|].
+  ib H mt Hmt.
+  dtop H; [ib H l' Hl; okinv H; split; [repeat split|reflexivity]|].
+  ib H l' Hl.
+  destruct (ConfChange.restore _ _) as [[c' ids']|e]; [|discriminate].
+  ib H y Hy. destruct y as [r1 new_cs].
+  unfold post_conf_change in Hy.
+  match type of Hy with context [is_leader ?x] =>
+    assert (Hnl : is_leader x = false) by (unfold is_leader; cbn; rewrite Hf; reflexivity) end.
+  rewrite Hnl in Hy. rewrite andb_false_r in Hy. cbn [negb orb] in Hy. okinv Hy.
+  dtop H; [discriminate|]. dtop H; [|discriminate]. dtop H; [discriminate|]. okinv H.
+  split; [repeat split|reflexivity].
+Qed.
+
+Lemma handle_snapshot_follower r m r' :
+  r_state r = Follower -> handle_snapshot r m = Ok r' -> tkeeps r r' /\ qpresF r r'.
+Proof.
+  intros Hf. unfold handle_snapshot. intros H. ib H y Hy. destruct y as [r1 ok].
+  apply restore_follower in Hy; [|exact Hf]. destruct Hy as [K M].
+  assert (Q : tkeeps r1 r' /\ qpresF r1 r').
+  { destruct ok; (split; [apply msgs_only_tkeeps; eapply send_msgs_only; exact H|]);
+      (eapply send_QF; [exact H|apply ftype_AppendResponse|discriminate]). }
+  destruct Q as [K2 Q2]. split; [eapply tkeeps_trans; eassumption|].
+  eapply qpresF_trans; [apply K|apply qpresF_same; exact M|exact Q2].
+Qed.
+
+(* a message a follower of term [t] with leader [l] can take: no campaign order, no
+   transfer, no term above t except a pre-vote request's, current-term leader traffic
+   only from l, and no (pre-)vote request claiming to come from l *)
+Definition okF (t : N) (m : msg) : Prop :=
+  m_type m <> MsgHup /\ m_type m <> MsgTimeoutNow /\ m_type m <> MsgTransferLeader /\
+  (m_term m <= t \/ m_type m = MsgRequestPreVote) /\
+  (from_leader m = true -> m_term m <> 0 /\ (m_term m = t -> m_from m = l)) /\
+  ((m_type m = MsgRequestVote \/ m_type m = MsgRequestPreVote) -> m_from m <> l).
+
+(* the follower's step: term, vote, role, leader, configuration and randomized timeout
+   stay; the election timer stays or is cleared, and is cleared by the leader's traffic *)
+Definition FF (m : msg) (r r' : raft) : Prop :=
+  keeps r r' /\ r_randomized_election_timeout r' = r_randomized_election_timeout r /\
+  (r_election_elapsed r' = r_election_elapsed r \/ r_election_elapsed r' = 0) /\
+  (from_leader m = true -> m_term m = r_term r -> r_election_elapsed r' = 0) /\
+  qpresF r r'.
+
+Lemma tkeeps_FF m r r' :
+  tkeeps r r' -> qpresF r r' -> ~ (from_leader m = true /\ m_term m = r_term r) -> FF m r r'.
+Proof.
+  intros (K & R & E) Q N. split; [exact K|]. split; [exact R|]. split; [left; exact E|].
+  split; [intros A B; exfalso; apply N; auto|exact Q].
+Qed.
+
+Theorem follower_step_FF r m r' c :
+  r_state r = Follower -> r_leader_id r = l -> l <> INVALID_ID -> r_term r <> 0 ->
+  okF (r_term r) m -> step r m = Ok (r', c) -> FF m r r'.
+Proof.
+  intros Hs Hl Hl0 Ht0 (Hhup & Htn & Htl & Hterm & Hfl & Hfrom) H.
+  rewrite step_eq in H. ib H pre Hpre. apply step_pre_cases in Hpre.
+  destruct pre as [[r1 c1]|r1].
+  - okinv H. destruct Hpre as (_ & Hz & [(Hgt & _ & ->)|(Hlt & Hr)]).
+    + apply tkeeps_FF; [apply tkeeps_refl|apply qpresF_same; reflexivity|]. intros [_ E]. lia.
+    + apply tkeeps_FF; [apply msgs_only_tkeeps; eapply low_term_reply_msgs_only; exact Hr| |intros [_ E]; lia].
+      unfold low_term_reply in Hr. dtop Hr.
+      * eapply send_QF; [exact Hr|apply ftype_AppendResponse|discriminate].
+      * dtop Hr; [|okinv Hr; apply qpresF_same; reflexivity].
+        eapply send_QF; [exact Hr|repeat split; discriminate|]. intros _. right. cbn. lia.
+  - destruct Hpre as [[-> Hc]|(L & D & E & _)].
+    2:{ exfalso. destruct Hterm as [Q|Q]; [lia|]. unfold exempt in E. rewrite Q in E. discriminate. }
+    unfold step_body in H.
+    destruct (m_type m =? MsgHup) eqn:Ehup; [apply N.eqb_eq in Ehup; contradiction|].
+    destruct ((m_type m =? MsgRequestVote) || (m_type m =? MsgRequestPreVote)) eqn:Ev.
+    { assert (Ht : m_type m = MsgRequestVote \/ m_type m = MsgRequestPreVote)
+        by (apply orb_prop in Ev; destruct Ev as [X|X]; apply N.eqb_eq in X; auto).
+      assert (Hnfl : ~ (from_leader m = true /\ m_term m = r_term r)).
+      { intros [X _]. unfold from_leader in X. destruct Ht as [Y|Y]; rewrite Y in X; discriminate. }
+      assert (Hb : step_body r m = Ok (r', c)) by (unfold step_body; rewrite Ehup, Ev; exact H).
+      pose proof (Hfrom Ht) as Hn.
+      assert (Hrt : ftype_ok (resp_type m))
+        by (unfold resp_type; destruct (m_type m =? MsgRequestVote); repeat split; discriminate).
+      assert (Hpush : forall rej t ci, qpresF r (push r (vote_resp r m (resp_type m) rej t ci))).
+      { intros rej t ci F. unfold push. cbn. apply Forall_app. split; [exact F|].
+        constructor; [|constructor]. intros X. cbn in X. congruence. }
+      apply step_body_vote in Hb; [|exact Ht].
+      destruct Hb as [_ [(G & _ & ->)|(_ & _ & ci & _ & Hm)]].
+      - destruct (m_type m =? MsgRequestVote) eqn:Erv.
+        + unfold grants in G. ib G utd Hu. injection G as G.
+          apply andb_prop in G. destruct G as [G _]. apply andb_prop in G. destruct G as [Hcv _].
+          assert (Hvote : r_vote r = m_from m).
+          { apply orb_prop in Hcv. destruct Hcv as [Hcv|Hcv].
+            - apply orb_prop in Hcv. destruct Hcv as [Hcv|Hcv]; [apply N.eqb_eq; exact Hcv|].
+              apply andb_prop in Hcv. destruct Hcv as [_ Hcv]. apply N.eqb_eq in Hcv. congruence.
+            - apply andb_prop in Hcv. destruct Hcv as [Hcv _]. apply N.eqb_eq in Erv, Hcv.
+              rewrite Erv in Hcv. discriminate. }
+          split; [unfold keeps, core; cbn; rewrite Hvote; reflexivity|]. split; [reflexivity|].
+          split; [right; reflexivity|]. split; [intros A B; reflexivity|]. apply Hpush.
+        + apply tkeeps_FF; [repeat split|apply Hpush|exact Hnfl].
+      - apply maybe_commit_by_vote_cases in Hm. destruct Hm as [E|([S|S] & _)]; [|cbn in S; congruence..].
+        apply tkeeps_FF; [rewrite E; repeat split| |exact Hnfl].
+        intros F. rewrite E. cbn. apply Hpush, F. }
+    rewrite Hs in H. unfold step_follower in H.
+    assert (Hfwd : forall r', send r (m <| m_to := r_leader_id r |>) = Ok r' -> ftype_ok (m_type m) ->
+                   is_vote_type (m_type m) = false -> from_leader m = false -> FF m r r').
+    { intros ra Ha Hok Hv Hnl. apply tkeeps_FF.
+      - apply msgs_only_tkeeps. eapply send_msgs_only; exact Ha.
+      - eapply send_QF; [exact Ha|exact Hok|]. cbn. rewrite Hv. discriminate.
+      - rewrite Hnl. intros [X _]. discriminate. }
+    assert (Hsame : from_leader m = false -> FF m r r).
+    { intros Hnl. apply tkeeps_FF; [apply tkeeps_refl|apply qpresF_same; reflexivity|].
+      rewrite Hnl. intros [X _]. discriminate. }
+    assert (Hlead : forall ra, from_leader m = true ->
+       tkeeps (r <| r_election_elapsed := 0 |> <| r_leader_id := m_from m |>) ra ->
+       qpresF (r <| r_election_elapsed := 0 |> <| r_leader_id := m_from m |>) ra -> FF m r ra).
+    { intros ra Hfm (K & R & El) Q.
+      assert (Hfr : m_from m = r_leader_id r).
+      { rewrite Hl. destruct (Hfl Hfm) as [Hnz Hfl']. apply Hfl'.
+        destruct Hc as [Z|[Z|(L & _)]]; [contradiction|exact Z|].
+        exfalso. destruct Hterm as [Q0|Q0]; [lia|].
+        unfold from_leader in Hfm; rewrite Q0 in Hfm; discriminate. }
+      split.
+      { unfold keeps in *. rewrite K. unfold core. cbn. rewrite Hfr. reflexivity. }
+      split; [exact R|]. split; [right; exact El|]. split; [intros _ _; exact El|exact Q]. }
+    destruct (m_type m =? MsgPropose) eqn:E1.
+    { apply N.eqb_eq in E1.
+      assert (Hnl : from_leader m = false) by (unfold from_leader; rewrite E1; reflexivity).
+      dtop H; [okinv H; apply Hsame, Hnl|]. dtop H; [okinv H; apply Hsame, Hnl|].
+      ib H y Hy. okinv H. apply Hfwd; [exact Hy|rewrite E1; repeat split; discriminate|rewrite E1; reflexivity|exact Hnl]. }
+    destruct (m_type m =? MsgAppend) eqn:E2.
+    { ib H y Hy. okinv H. apply Hlead; [unfold from_leader; rewrite E2; reflexivity| |].
+      - apply only_msgs_log_tkeeps, handle_append_entries_only with (m := m). exact Hy.
+      - eapply handle_append_entries_QF; exact Hy. }
+    destruct (m_type m =? MsgHeartbeat) eqn:E3.
+    { ib H y Hy. okinv H. apply Hlead; [unfold from_leader; rewrite E3, orb_true_r; reflexivity| |].
+      - apply only_msgs_log_tkeeps, handle_heartbeat_only with (m := m). exact Hy.
+      - eapply handle_heartbeat_QF; exact Hy. }
+    destruct (m_type m =? MsgSnapshot) eqn:E4.
+    { ib H y Hy. okinv H. apply handle_snapshot_follower in Hy; [|exact Hs]. destruct Hy as [A B].
+      apply Hlead; [unfold from_leader; rewrite E4, orb_true_r; reflexivity|exact A|exact B]. }
+    assert (Hnl : from_leader m = false) by (unfold from_leader; rewrite E2, E3, E4; reflexivity).
+    destruct (m_type m =? MsgTransferLeader) eqn:E5; [apply N.eqb_eq in E5; contradiction|].
+    destruct (m_type m =? MsgTimeoutNow) eqn:E6; [apply N.eqb_eq in E6; contradiction|].
+    destruct (m_type m =? MsgReadIndex) eqn:E7.
+    { apply N.eqb_eq in E7. dtop H; [okinv H; apply Hsame, Hnl|].
+      ib H y Hy. okinv H. apply Hfwd; [exact Hy|rewrite E7; repeat split; discriminate|rewrite E7; reflexivity|exact Hnl]. }
+    destruct (m_type m =? MsgReadIndexResp) eqn:E8.
+    { destruct (m_entries m) as [|e [|e2 rest]]; try (okinv H; apply Hsame, Hnl).
+      ib H y Hy. okinv H. apply tkeeps_FF; [repeat split|apply qpresF_same; reflexivity|].
+      rewrite Hnl. intros [X _]. discriminate. }
+    okinv H. apply Hsame, Hnl.
+Qed.
